@@ -36,6 +36,11 @@ pub fn run(thorough: bool, seed: u64, _replay: Option<String>) -> Report {
             }
             _ => base.chars().take(rng.range(1, 60)).collect(),
         };
+        let text = if i % 5 == 4 {
+            format!("{}{}{}", *rng.pick(&["\u{ef}\u{bb}\u{bf}", "\u{ff}\u{fe}", "\u{fe}\u{ff}", "\u{ef}\u{bb}\u{bf}"]), text, *rng.pick(&["\u{1}\u{2}\u{3}", "\u{1}\u{1b}", " \u{7}\u{7}\u{7}\u{7}"]))
+        } else {
+            text
+        };
         // all encodings that round-trip the text
         let encs: Vec<(&str, Vec<u8>)> = sup
             .iter()
